@@ -26,6 +26,7 @@ type FsOp struct {
 	Dst  string // rename destination
 	OK   bool   // the system call succeeded
 	Inj  bool   // the failure was injected by strace
+	Err  string // errno name of a failed call (ENOENT, EIO, …)
 }
 
 const traceSet = "openat,rename,renameat,renameat2,unlink,unlinkat,rmdir"
@@ -38,6 +39,7 @@ type Mode struct {
 	RenameFail      string // strace `when=` expression for failing renames with EIO, e.g. "2+5" ("" = none)
 	UnlinkFail      string // same for unlink/rmdir
 	KillAt          int    // >0: SIGKILL the child on entering its KillAt-th rename/unlink (the call is not executed)
+	WriteKillAt     int    // >0: SIGKILL the child on entering its WriteKillAt-th write(2) (a kill in the middle of writing files)
 }
 
 type Session struct {
@@ -56,7 +58,7 @@ type Session struct {
 func Start(mode Mode, logPath string, env []string, bin string, args ...string) (*Session, error) {
 	os.Remove(logPath)
 	sa := []string{"-f", "-s", "4096", "-o", logPath, "-e", "trace=" + traceSet, "-e", "signal=SIGSTOP,SIGKILL,SIGCONT"}
-	if !mode.StopAtMutations && mode.KillAt == 0 {
+	if !mode.StopAtMutations && mode.KillAt == 0 && mode.WriteKillAt == 0 {
 		// strace 6.1 does not deliver injected signals when it filters system calls with seccomp-bpf
 		sa = append(sa, "--seccomp-bpf")
 	}
@@ -71,6 +73,10 @@ func Start(mode Mode, logPath string, env []string, bin string, args ...string) 
 	}
 	if mode.KillAt > 0 {
 		sa = append(sa, "-e", fmt.Sprintf("inject=%s,%s:signal=SIGKILL:when=%d", renameSet, unlinkSet, mode.KillAt))
+	}
+	if mode.WriteKillAt > 0 {
+		// tampering only applies to system calls that are traced
+		sa = append(sa, "-e", "trace="+traceSet+",write", "-e", fmt.Sprintf("inject=write:signal=SIGKILL:when=%d", mode.WriteKillAt))
 	}
 	sa = append(sa, bin)
 	sa = append(sa, args...)
@@ -199,7 +205,19 @@ func unq(s string) string {
 }
 
 // ParseOp parses the text of one finished system call; nil if it is not a mutation the harness tracks.
+var reErrno = regexp.MustCompile(`= -1 ([A-Z]+)`)
+
 func ParseOp(rest string) *FsOp {
+	op := parseOp(rest)
+	if op != nil && !op.OK {
+		if m := reErrno.FindStringSubmatch(rest); m != nil {
+			op.Err = m[1]
+		}
+	}
+	return op
+}
+
+func parseOp(rest string) *FsOp {
 	if m := reRenameat.FindStringSubmatch(rest); m != nil {
 		return &FsOp{Kind: "rename", Src: unq(m[1]), Dst: unq(m[2]), OK: m[3] == "0", Inj: strings.Contains(m[4], "INJECTED")}
 	}
